@@ -27,4 +27,9 @@ T_LOps == {<<>>, <<"x">>, <<"xy">>, <<"y">>, <<"%x">>, <<"x", "y">>, <<"y", "x">
            <<"%x", "xy", "y">>, <<"x", "x", "y">>, <<"x", "x", "y", "x">>, <<"0x0">>, <<"10">>}
 
 Universe == [patterns |-> SetToSeq(Patterns), listings |-> SetToSeq(Listings)]
+\* names are literal text: an upper-case name is not its lower-case spelling
+CaseItems == { PIns(m, LitOps(o)) : m \in {"A", "a"}, o \in {<<>>, <<"X">>, <<"x">>} }
+CasePatterns == { PAnd(s) : s \in SeqsBetween(CaseItems, 1, 2) }
+CaseListings == ListingsOver({ <<m, o>> : m \in {"a", "A"}, o \in {<<>>, <<"x">>, <<"X">>} }, 0, 2)
+UniverseCase == [patterns |-> SetToSeq(CasePatterns), listings |-> SetToSeq(CaseListings)]
 =============================================================================
